@@ -309,6 +309,21 @@ func genCase(t *rapid.T) *filterCase {
 	c.F.Relative = rapid.Bool().Draw(t, "relative")
 	c.PartR = genRegex(t, pool, "part")
 	c.Interactive = rapid.IntRange(0, 3).Draw(t, "interactive") == 0
+	var blankExprs []string
+	for _, x := range pool {
+		if strings.HasPrefix(x, " ") || strings.HasSuffix(x, " ") {
+			blankExprs = append(blankExprs, x)
+		}
+	}
+	if len(blankExprs) > 0 && rapid.Bool().Draw(t, "blankexpr") {
+		// an expression that begins or ends with a blank (" new" keeps "operator new" and not "newobject")
+		x := regexp.QuoteMeta(rapid.SampledFrom(blankExprs).Draw(t, "blankexprv"))
+		if rapid.Bool().Draw(t, "blankignore") {
+			c.F.Ignore = x
+		} else {
+			c.F.Focus = x
+		}
+	}
 	if odd && rapid.Bool().Draw(t, "oddfocus") {
 		// the odd name itself as the expression, typed at the prompt (as an assignment or as a command argument)
 		n := regexp.QuoteMeta(p.Functions[0].Name)
